@@ -842,7 +842,10 @@ class IncludeNode(DirectiveNode):
             is_system_include,
         )
 
-        if include_file and kwargs["platform"].process_include(include_file):
+        # Files marked with #pragma once are recorded by their real path.
+        if include_file and kwargs["platform"].process_include(
+            kwargs["state"]._get_realpath(include_file),
+        ):
             # include files use the same language as the file itself,
             # irrespective of file extension.
             lang = kwargs["state"].langs[kwargs["filename"]]
